@@ -416,6 +416,8 @@ def observe(e, vals):
         except AttributeError:
             got.append((n, None))
     rev = tuple((t, e[equal_copy(v)]) for t, v in vals)
+    # ... and of plain integers that are the CODE of an OpCode value (no member equals them unless it equals them as Python values do)
+    rev += tuple(("int:%d" % c, e[c]) for c in (1, 0x12))
     return tuple(ks), tuple(got), rev
 
 
@@ -430,7 +432,7 @@ def check_state(enums, models, vals, where):
             if t != want:
                 out.append(("value", "%s: enum %d .%s is %r, dict model %r" % (where, i, n, t, want)))
         for (t, name) in rev:
-            v = dict(vals)[t]
+            v = int(t[4:]) if t.startswith("int:") else dict(vals)[t]
             want = ""
             for k, mv in m.items():
                 if mv == v:
